@@ -246,9 +246,23 @@ def run(ctx: Ctx, tier: str) -> Result:
     # the merge key (location id) must determine everything at_location compares, else different locations are merged
     for cname in ("LineLocation", "FunctionLocation"):
         c_ = p.cls(TRIG + "." + cname)
-        atl, idg = c_.own_method("at_location"), c_.own_method("id")
-        need(atl is not None and idg is not None, "%s: at_location / id not found" % cname)
-        idt = term(ctx, idg, "self.id")
+        atl, idg = c_.lookup("at_location"), c_.lookup("id")
+        need(atl is not None and idg is not None and not atl.is_abstract and not idg.is_abstract, "%s: at_location / id not found" % cname)
+        # the id getter may be inherited: read it with `self` being an instance of this class
+        rets_ = [r for r in t.nodes_in(idg, ast.Return) if r.value is not None]
+        need(rets_, "%s.id returns nothing" % cname)
+        idts = []
+        for r in rets_:
+            idts += ctx.expand.expand(r.value, idg)
+        if idg.cls is not c_:
+            # keep only what this class contributes: fields of c_ and of its bases
+            own = {"_" + k.name.lstrip("_") for k in c_.mro}
+
+            def mine(f):
+                m = re.match(r"(_[A-Za-z0-9]+?)__\w", f)
+                return m is None or m.group(1) in own
+            idts = [x for x in idts if all(mine(f) for f in re.findall(r"@self\.(_\w+)", x))]
+        idt = " | ".join(idts)
         fields_id = set(re.findall(r"@self\.(_\w+)", idt))
         tb_ = Table(ctx, atl)
         fields_at = set()
